@@ -9,18 +9,20 @@
      of delivery, are consecutive and end just before its cursor: each position once, in order, no gap;
    - C01_delivered_value_is_log_entry: on the move-out flavour (MPMC, views included) every delivery recorded
      for position p handed the client exactly the p-th claimed value;
+   - C01_broadcast_delivery_has_identity_of_log_entry: on the broadcast flavour every delivery recorded for
+     position p handed the client a clone whose identity is the identity of the p-th claimed value;
    - C01_commit_reads_log_entry: on every flavour, a consumer at its committing step whose cursor is its
      attempt position holds the p-th claimed value (broadcast: the source its clone was made from);
    - C01_slot_holds_its_position: a slot whose tag is a position holds that position's value unless a writer
      has overwritten the cell and is about to publish.
    The last four are over [mreachN]: every execution without the publishing step of known finding F11
    (see Props/C03.v), with fewer than 2^62 handles ever created and fewer than 2^62 values ever claimed.
-   Not proved: that the clone a broadcast consumer makes stays a clone of that source while the clone runs
-   (pin invariant, C04), and the wrap-around of positions at 2^63. *)
+   (That the cell a clone or view is made from stays unchanged while it runs is Props/C04.v.)
+   Not proved: the wrap-around of positions at 2^63. *)
 From Coq Require Import NArith List Bool.
 Require Import MQ.Arith64 MQ.Arith64Facts MQ.Types MQ.State MQ.Model MQ.Exec MQ.Reach MQ.Fields MQ.Ctl MQ.Count
   MQ.WritersStep MQ.InvWriters MQ.HeadStep MQ.InvHead MQ.RecvDefs MQ.InvReg MQ.WinStep MQ.WinDefs MQ.InvWin MQ.WinRun
-  MQ.SlotDefs MQ.InvSlot MQ.InvDeliv.
+  MQ.SlotDefs MQ.InvSlot MQ.InvDeliv MQ.InvSer.
 Import ListNotations.
 Open Scope N_scope.
 
@@ -94,6 +96,23 @@ Check C01_delivered_value_is_log_entry : forall c fut s,
     (is_bcast c = false -> nth_error (g_log (sh s)) (N.to_nat p) = Some ser).
 Print Assumptions C01_delivered_value_is_log_entry.
 
+Theorem C01_broadcast_delivery_has_identity_of_log_entry : forall c fut s,
+  0 < c_n c -> c_n c <= B61 -> mreachN c fut s ->
+  lenN (ags s) < B62 -> lenN (g_log (sh s)) < B62 -> is_bcast c = true ->
+  forall sid p ser me, In (sid, p, ser, me) (g_deliv (sh s)) ->
+    exists src, nth_error (g_log (sh s)) (N.to_nat p) = Some src /\ gid (sh s) ser = gid (sh s) src.
+Proof.
+  intros c fut s Np Ns R S1 S2 BC sid p ser me IN.
+  destruct (ser_mreachN c Np Ns fut s R (conj S1 S2)) as ([_ _ G3] & _).
+  destruct (G3 BC sid p ser me IN) as (_ & src & E1 & E2). exists src. split; [exact E1|exact E2].
+Qed.
+Check C01_broadcast_delivery_has_identity_of_log_entry : forall c fut s,
+  0 < c_n c -> c_n c <= B61 -> mreachN c fut s ->
+  lenN (ags s) < B62 -> lenN (g_log (sh s)) < B62 -> is_bcast c = true ->
+  forall sid p ser me, In (sid, p, ser, me) (g_deliv (sh s)) ->
+    exists src, nth_error (g_log (sh s)) (N.to_nat p) = Some src /\ gid (sh s) ser = gid (sh s) src.
+Print Assumptions C01_broadcast_delivery_has_identity_of_log_entry.
+
 (* [valof]: the register that holds what the consumer read from the cell (move-out: the value itself;
    broadcast: the source of the clone; view: the viewed value) *)
 Theorem C01_commit_reads_log_entry : forall c fut s a A,
@@ -162,7 +181,9 @@ Qed.
 Example C01_delivery_witness_broadcast :
   let c := mk_cfg BCast 2 WBusy in
   exists s, mreachN c false s /\ lenN (ags s) < B62 /\ lenN (g_log (sh s)) < B62 /\
-    dposs 0 (g_deliv (sh s)) = [0; 1] /\ dposs 1 (g_deliv (sh s)) = [0] /\ gpos (sh s) 0 = 2 /\ gpos (sh s) 1 = 1.
+    dposs 0 (g_deliv (sh s)) = [0; 1] /\ dposs 1 (g_deliv (sh s)) = [0] /\ gpos (sh s) 0 = 2 /\ gpos (sh s) 1 = 1 /\
+    g_deliv (sh s) = [(0, 0, 2, 1); (1, 0, 3, 2); (0, 1, 4, 1)] /\ g_log (sh s) = [0; 1] /\
+    gid (sh s) 2 = gid (sh s) 0 /\ gid (sh s) 3 = gid (sh s) 0 /\ gid (sh s) 4 = gid (sh s) 1 /\ gid (sh s) 0 <> gid (sh s) 1.
 Proof.
   cbv zeta.
   destruct (m_run true (mk_cfg BCast 2 WBusy) (init false)
